@@ -2980,9 +2980,20 @@ class ContentProtectionSpecificBox(FullBox):
         rv["key_ids"] = []
         if rv["version"] > 0:
             kid_count = r.get('I', 'kid_count')
+            if kid_count * 16 > (rv["position"] + rv["size"] - src.tell()):
+                # reading beyond the end of the data returns nothing: a
+                # corrupt count would keep this loop busy for 2**32 rounds
+                raise ValueError(
+                    f'Invalid number of key IDs {kid_count} in pssh box of {rv["size"]} bytes')
             for i in range(kid_count):
-                rv["key_ids"].append(r.get(16, 'kid'))
+                kid = r.get(16, 'kid')
+                if len(kid) != 16:
+                    raise ValueError('pssh box is truncated')
+                rv["key_ids"].append(kid)
         data_size = r.get('I', 'data_size')
+        if data_size > (rv["position"] + rv["size"] - src.tell()):
+            raise ValueError(
+                f'Invalid data size {data_size} in pssh box of {rv["size"]} bytes')
         if data_size > 0:
             r.read(data_size, "data")
         else:
